@@ -402,6 +402,44 @@ build_whole_unit("C10.build_end_to_end", "C10")
 build_whole_unit("C10.build_end_to_end.per_chain_states", "C10", "B")
 
 
+def builder_setup(ip):
+    """a REAL EngineBuilder (2 chains, symbolic seed) with a stub model, two ghost kernels and a replicated initial state; returns (builder, mk_schedule, B-schedule holder)"""
+    c = ip.ctx
+    from contracts.c07 import IDENTS, ghost_kernel, install_engine_models
+    install_engine_models(ip)
+    key_models(ip)
+    ip.models["jax.jit"] = lambda ip_, f, **kw: f
+    ip.models["isinstance:jax.Array"] = lambda ip_, x: (is_z3(x) and x.sort() == U) or (isinstance(x, PyObj) and x.name == "keys")
+    ip.opaque_attr["shape"] = lambda ip_, v: (2,)
+
+    def split(ip_, key, num=2):
+        n = ip_.conc_int(num)
+        kids = [ip_.uf("split", ip_.to_U(key), z3.IntVal(i)) for i in range(n)]
+        return PyObj("keys", shape=(n, 2), parent=ip_.to_U(key), kids=kids, __getitem__=PyFn(lambda ip2, i: kids[ip2.conc_int(i)], "keys[]"), __len__=PyFn(lambda ip2: n, "len"))
+
+    ip.models["jax.random.split"] = split
+    ip.models["to_U:keys"] = None
+    ip.summaries["liesel/goose/pytree.py::stack_leaves"] = lambda ip_, args, kwargs: ip_.uf("stack", *[ip_.to_U(x) for x in ip_.iterate(args[0])])
+    EC = ip.repo("liesel/goose/epoch.py::EpochConfig")
+    mk = lambda sched: [ip.call(EC, [t, d, th, None], {}) for t, d, th in sched]  # noqa: E731
+    model = PyObj("model",
+                  extract_position=PyFn(lambda ip_, keys, st: {k: ip_.uf("extract", z3.Const(f"str:{k}", U), ip_.to_U(st)) for k in keys}, "extract_position"),
+                  update_state=PyFn(lambda ip_, pos, st: ip_.uf("update_state", ip_.to_U(pos), ip_.to_U(st)), "update_state"))
+    trace = []
+    ks = [ghost_kernel(ip, i, trace, idt) for i, idt in enumerate(["k0", "k1"])]
+    for k in ks:
+        k.attrs["_model"] = None
+        k.attrs["has_model"] = PyFn(lambda ip_, k=k: k.attrs["_model"] is not None, "has_model")
+        k.attrs["set_model"] = PyFn(lambda ip_, m, k=k: k.attrs.__setitem__("_model", m), "set_model")
+    b = ip.call(ip.repo(B), [c.fresh("seed", Int), 2], {})
+    ip.call(method(ip, b, "set_model"), [model], {})
+    ip.call(method(ip, b, "set_initial_values"), [z3.Const("initial_state", U)], {})
+    for k in ks:
+        ip.call(method(ip, b, "add_kernel"), [k], {})
+    ip.setattr(b, "show_progress", False)
+    return b, mk
+
+
 def rebuild_unit(uid, prop):
     @unit(uid, prop, [f"{B}.__init__", f"{B}.set_epochs", f"{B}.set_duration", f"{B}.set_model", f"{B}.set_initial_values", f"{B}.add_kernel", f"{B}.build", f"{E}.__init__",
                       "liesel/goose/epoch.py::EpochManager.__init__", "liesel/goose/epoch.py::EpochManager.append"],
@@ -412,42 +450,11 @@ def rebuild_unit(uid, prop):
         """a builder that is RE-USED: after the schedule is replaced (by set_duration or set_epochs) the next build() hands the engine the new schedule
         and a chunk length that divides every non-initial duration OF THAT schedule (nothing remembered from an earlier build)."""
         c = ip.ctx
-        from contracts.c07 import IDENTS, ghost_kernel, install_engine_models
-        install_engine_models(ip)
-        key_models(ip)
-        ip.models["jax.jit"] = lambda ip_, f, **kw: f
-        ip.models["isinstance:jax.Array"] = lambda ip_, x: (is_z3(x) and x.sort() == U) or (isinstance(x, PyObj) and x.name == "keys")
-        ip.opaque_attr["shape"] = lambda ip_, v: (2,)
-
-        def split(ip_, key, num=2):
-            n = ip_.conc_int(num)
-            kids = [ip_.uf("split", ip_.to_U(key), z3.IntVal(i)) for i in range(n)]
-            return PyObj("keys", shape=(n, 2), parent=ip_.to_U(key), kids=kids, __getitem__=PyFn(lambda ip2, i: kids[ip2.conc_int(i)], "keys[]"), __len__=PyFn(lambda ip2: n, "len"))
-
-        ip.models["jax.random.split"] = split
-        ip.models["to_U:keys"] = None
-        ip.summaries["liesel/goose/pytree.py::stack_leaves"] = lambda ip_, args, kwargs: ip_.uf("stack", *[ip_.to_U(x) for x in ip_.iterate(args[0])])
-        EC = ip.repo("liesel/goose/epoch.py::EpochConfig")
-        mk = lambda sched: [ip.call(EC, [t, d, th, None], {}) for t, d, th in sched]  # noqa: E731
+        b, mk = builder_setup(ip)
         A = mk(((0, 1, 1), (3, 6, 1), (4, 9, 1)))
         Bs = mk(((0, 1, 1), (1, 75, 1), (2, 25, 1), (2, 90, 1), (1, 10, 1), (4, 100, 1)))
         C = mk(((0, 1, 1), (3, 14, 1), (4, 21, 7)))
         ip.summaries["liesel/goose/warmup.py::stan_epochs"] = lambda ip_, args, kwargs: list(Bs)
-        model = PyObj("model",
-                      extract_position=PyFn(lambda ip_, keys, st: {k: ip_.uf("extract", z3.Const(f"str:{k}", U), ip_.to_U(st)) for k in keys}, "extract_position"),
-                      update_state=PyFn(lambda ip_, pos, st: ip_.uf("update_state", ip_.to_U(pos), ip_.to_U(st)), "update_state"))
-        trace = []
-        ks = [ghost_kernel(ip, i, trace, idt) for i, idt in enumerate(["k0", "k1"])]
-        for k in ks:
-            k.attrs["_model"] = None
-            k.attrs["has_model"] = PyFn(lambda ip_, k=k: k.attrs["_model"] is not None, "has_model")
-            k.attrs["set_model"] = PyFn(lambda ip_, m, k=k: k.attrs.__setitem__("_model", m), "set_model")
-        b = ip.call(ip.repo(B), [c.fresh("seed", Int), 2], {})
-        ip.call(method(ip, b, "set_model"), [model], {})
-        ip.call(method(ip, b, "set_initial_values"), [z3.Const("initial_state", U)], {})
-        for k in ks:
-            ip.call(method(ip, b, "add_kernel"), [k], {})
-        ip.setattr(b, "show_progress", False)
         import math as _m
         for step, (how, sched) in enumerate((("set_epochs", A), ("set_duration", Bs), ("set_epochs", C))):
             if how == "set_epochs":
@@ -457,25 +464,73 @@ def rebuild_unit(uid, prop):
             # what a user may look at between the calls
             for attr in ("epochs", "kernels", "engine_seed"):
                 try_call(ip, PyFn(lambda ip_, attr=attr: ip_.getattr(b, attr), "read"), [])
-            kind, eng = try_call(ip, method(ip, b, "build"), [], {})
-            c.oblige(f"build_{step}_succeeds", kind == "ok", raised=str(getattr(eng, "cls", "")))
-            if kind != "ok":
-                return
-            durs = [e.f["duration"] for e in sched[1:]]
-            g_ = _m.gcd(*durs)
-            jd = eng.f["_jitted_sample_duration"]
-            c.oblige(f"build_{step}_chunk_is_gcd_of_the_current_schedule", (jd == g_) if is_z3(jd) else jd == g_, got=str(jd), want=g_)
-            mgr = eng.f["_epoch_manager"]
-            got = [ip.call(method(ip, mgr, "next"), [], {}) for _ in sched]
-            c.oblige(f"build_{step}_engine_gets_the_current_schedule", all(got[i].f["config"] is sched[i] for i in range(len(sched)))
-                     and ip.truth(ip.call(method(ip, mgr, "has_more"), [], {})) is False)
+            for rep in ("", "_again"):  # every schedule is built TWICE in a row: build() must not use anything up
+                kind, eng = try_call(ip, method(ip, b, "build"), [], {})
+                c.oblige(f"build_{step}{rep}_succeeds", kind == "ok", raised=str(getattr(eng, "cls", "")))
+                if kind != "ok":
+                    return
+                durs = [e.f["duration"] for e in sched[1:]]
+                g_ = _m.gcd(*durs)
+                jd = eng.f["_jitted_sample_duration"]
+                c.oblige(f"build_{step}{rep}_chunk_is_gcd_of_the_current_schedule", (jd == g_) if is_z3(jd) else jd == g_, got=str(jd), want=g_)
+                mgr = eng.f["_epoch_manager"]
+                got = []
+                for _ in sched:
+                    k2, st_ = try_call(ip, method(ip, mgr, "next"), [], {})
+                    got.append(st_ if k2 == "ok" else None)
+                c.oblige(f"build_{step}{rep}_engine_gets_the_current_schedule", all(got[i] is not None and got[i].f["config"] is sched[i] for i in range(len(sched)))
+                         and ip.truth(ip.call(method(ip, mgr, "has_more"), [], {})) is False)
+                eps_pub = try_call(ip, PyFn(lambda ip_: ip_.getattr(b, "epochs"), "read"), [])
+                c.oblige(f"build_{step}{rep}_builder_still_reports_the_schedule", eps_pub[0] == "ok" and len(list(ip.iterate(eps_pub[1]))) == len(sched)
+                         and all(x is y for x, y in zip(ip.iterate(eps_pub[1]), sched)))
     return u
 
 
 rebuild_unit("C10.builder_reused_after_schedule_change", "C10")
+
+@unit("C10.jitter_functions_can_be_replaced_and_switched_off", "C10", [f"{B}.set_jitter_fns", f"{B}.jitter_fns.fget", f"{B}.build", f"{E}.__init__"],
+      assumptions=["A-VMAP / A-JIT", "history on ONE real builder: set_jitter_fns(F) - build - set_jitter_fns(G) - build - set_jitter_fns(None) - build - set_jitter_fns(F) - set_jitter_fns({}) - build"])
+def u_jitter_reset(ip):
+    """'the configured jitter' is what the LAST set_jitter_fns call configured: replaced functions replace the earlier ones, None or an empty
+    mapping switches jitter off - the engine then starts from the supplied initial values themselves."""
+    c = ip.ctx
+    b, mk = builder_setup(ip)
+    ip.call(method(ip, b, "set_epochs"), [mk(((0, 1, 1), (4, 6, 1)))], {})
+    init = z3.Const("initial_state", U)
+    stacked = ip.uf("stack", init, init)
+    ku = lambda ip_, k: ip_.to_U(k.attrs["kids"]) if isinstance(k, PyObj) else ip_.to_U(k)  # noqa: E731
+    F = {"p0": PyFn(lambda ip_, k, v: ip_.uf("jitter_F", ku(ip_, k), ip_.to_U(v)), "F")}
+    G_ = {"p0": PyFn(lambda ip_, k, v: ip_.uf("jitter_G", ku(ip_, k), ip_.to_U(v)), "G")}
+
+    def states(tag):
+        kind, eng = try_call(ip, method(ip, b, "build"), [], {})
+        c.oblige(f"{tag}.build_succeeds", kind == "ok", raised=str(getattr(eng, "cls", "")))
+        return str(ip.to_U(eng.f["_model_states"])) if kind == "ok" else None
+
+    ip.call(method(ip, b, "set_jitter_fns"), [F], {})
+    s_f = states("with_F")
+    c.oblige("with_F.initial_states_jittered_by_F", s_f is not None and "jitter_F" in s_f and "jitter_G" not in s_f)
+    ip.call(method(ip, b, "set_jitter_fns"), [G_], {})
+    s_g = states("replaced_by_G")
+    c.oblige("replaced_by_G.initial_states_jittered_by_G_only", s_g is not None and "jitter_G" in s_g and "jitter_F" not in s_g)
+    ip.call(method(ip, b, "set_jitter_fns"), [None], {})
+    s_n = states("switched_off_with_None")
+    c.oblige("switched_off_with_None.initial_states_are_the_supplied_values", s_n is not None and s_n == str(stacked))
+    ip.call(method(ip, b, "set_jitter_fns"), [F], {})
+    ip.call(method(ip, b, "set_jitter_fns"), [{}], {})
+    s_e = states("switched_off_with_empty_mapping")
+    # (an empty mapping may still go through update_state with an empty position - a value-preserving call; what matters is that no earlier function is applied)
+    c.oblige("switched_off_with_empty_mapping.no_jitter_function_applied", s_e is not None and "jitter_" not in s_e and str(init) in s_e)
+
 
 
 # the engine constructor: every chain's kernels are initialised from THAT chain's model state and its own key (same harness as C07.engine_init)
 from contracts.c07 import engine_init_unit  # noqa: E402
 
 engine_init_unit("C10.engine_init", "C10")
+
+# "the first recorded sample of every chain equals the supplied initial value": the initial-values epoch records extract_position of EACH chain's own state
+from contracts.c07 import u_handle_init  # noqa: E402
+
+unit("C10.initial_values_recorded_per_chain", "C10", ["liesel/goose/engine.py::Engine._handle_inital_values_epoch"])(u_handle_init)
+unit("C08.initial_values_recorded_per_chain", "C08", ["liesel/goose/engine.py::Engine._handle_inital_values_epoch"])(u_handle_init)
